@@ -302,6 +302,22 @@ func (p *pkg) constVal(e ast.Expr, local map[string]int) (int, bool) {
 	if pe, ok := e.(*ast.ParenExpr); ok {
 		return p.constVal(pe.X, local)
 	}
+	if be, ok := e.(*ast.BinaryExpr); ok {
+		x, ok1 := p.constVal(be.X, local)
+		y, ok2 := p.constVal(be.Y, local)
+		if ok1 && ok2 {
+			switch be.Op {
+			case token.ADD:
+				return x + y, true
+			case token.SUB:
+				if x >= y {
+					return x - y, true
+				}
+			case token.MUL:
+				return x * y, true
+			}
+		}
+	}
 	return 0, false
 }
 
